@@ -20,6 +20,7 @@ import (
 	"crypto/md5"
 	"crypto/sha1"
 	"crypto/sha256"
+	"encoding/hex"
 	"fmt"
 	"io"
 	"os"
@@ -1749,6 +1750,76 @@ func (e *c34Env) analyse(fam, format string, s *PkgSpec, data []byte, res *c34Re
 				res.TarBy = map[string]int{}
 			}
 			res.TarBy["rpm:file:skipped-size"]++
+		}
+		// the file list of the header (model of rpmpack's writeFile / writeFileIndexes, RpmFiles.lean): the sixteen
+		// per-file entries of the real header must be exactly what the model writes for the files the independent
+		// reader found – with sizes, digests and link targets recomputed here from the cpio bodies as shipped – and the
+		// Lean reader of the file list (proved to invert the model, RpmFiles.readFiles_of_lookup) must recover the rows
+		if len(x.Files) > 0 && len(x.Payload) <= e.segCap {
+			bodies := map[string][]byte{}
+			for _, ce := range x.Cpio {
+				bodies[ce.Name] = ce.Body
+			}
+			var req strings.Builder
+			fmt.Fprintf(&req, "rpmfiletags %d", len(x.Files))
+			for _, rf := range x.Files {
+				body := bodies[rf.Name]
+				sum := sha256.Sum256(body)
+				fmt.Fprintf(&req, " %s %d %d %s %s %d %d %s %s", wire.H(rf.Name), rf.Mode, rf.Flags, wire.H(rf.User), wire.H(rf.Group), rf.MTime,
+					len(body), wire.H(hex.EncodeToString(sum[:])), wire.H(string(body)))
+			}
+			fileTags := []int{1028, 1030, 1033, 1034, 1035, 1036, 1037, 1039, 1040, 1045, 1096, 1097, 1116, 1117, 1118, 5011}
+			var want strings.Builder
+			fmt.Fprintf(&want, "%d", len(fileTags))
+			okTags := true
+			for _, tg := range fileTags {
+				t, present := x.Hdr[tg]
+				if !present {
+					okTags = false
+					res.f04("rpm-file-entry-missing", fmt.Sprintf("the main header lists %d files but has no entry with tag %d", len(x.Files), tg))
+					break
+				}
+				var d []byte
+				switch t.Type {
+				case 3:
+					for _, v := range t.Ints {
+						d = append(d, byte(v>>8), byte(v))
+					}
+				case 4:
+					for _, v := range t.Ints {
+						d = append(d, byte(v>>24), byte(v>>16), byte(v>>8), byte(v))
+					}
+				case 6, 8:
+					for _, sv := range t.Strs {
+						d = append(append(d, sv...), 0)
+					}
+				default:
+					okTags = false
+				}
+				fmt.Fprintf(&want, " %d %d %d %s", t.Tag, t.Type, t.Count, wire.H(string(d)))
+			}
+			if okTags {
+				if res.TarBy == nil {
+					res.TarBy = map[string]int{}
+				}
+				res.TarBy["rpm:file-list:compared"]++
+				res.Checks = append(res.Checks, "rpmfiletags", "rpmfilerows")
+				ask(req.String(), func(ans string) {
+					if ans != want.String() {
+						res.f04("rpm-file-list-differs-from-model", "the per-file header entries differ from what the model of rpmpack writes for the files found (names, sizes and digests of the cpio bodies as shipped): "+c34FirstDiff(ans, want.String()))
+					}
+				})
+				var rows strings.Builder
+				fmt.Fprintf(&rows, "%d", len(x.Files))
+				for _, rf := range x.Files {
+					fmt.Fprintf(&rows, " %s %d %d %d %s %s %d %s %s", wire.H(rf.Name), rf.Size, rf.Mode, rf.MTime, wire.H(rf.Digest), wire.H(rf.Linkto), rf.Flags, wire.H(rf.User), wire.H(rf.Group))
+				}
+				ask("rpmfilerows "+want.String(), func(ans string) {
+					if ans != rows.String() {
+						res.f04("rpm-file-list-lean-reader-disagrees", fmt.Sprintf("the Lean reader of the header's file list answers %.300q, the Go reader found %.300q", ans, rows.String()))
+					}
+				})
+			}
 		}
 		res.check(x.CpioTrailerOK, "cpio-no-trailer", "the cpio payload has no TRAILER!!! entry")
 		rest := x.CpioRest
